@@ -181,6 +181,26 @@ def loadGroupsKerning (sfx : Nat → Str) (fmt : Nat) (groups : Option Groups) (
           | .error _ => .ok (.error .upconversionFailure)
           | .ok () => .ok (.ok (o.groups, o.kerning))
 
+/-! ### robofab feature blocks (`upconversion.rs:158-180`, `font.rs:290-298`), as repaired -/
+
+/-- `for key in order { if let Some(txt) = features_split.get(&key) { push_str(txt) } }` -/
+def joinBlocks (blocks : List (Str × Str)) : List Str → Str
+  | [] => []
+  | t :: ts => (match lookup t blocks with | some txt => txt | none => []) ++ joinBlocks blocks ts
+
+/-- the text built from the lib of a format 1 font, for a given order of the tags when there is no
+    `featureorder` list (`keys` = iteration order of the `HashMap` before the repair) -/
+def featuresTextWith (keysOrder : List Str) (classes : Option Str) (order : Option (List Str))
+    (blocks : Option (List (Str × Str))) : Str :=
+  (classes.getD []) ++
+  (match blocks with
+   | none => []
+   | some b => '\n' :: joinBlocks b (order.getD keysOrder))
+
+/-- as repaired: without a `featureorder` the tags are sorted -/
+def featuresText (classes : Option Str) (order : Option (List Str)) (blocks : Option (List (Str × Str))) : Str :=
+  featuresTextWith (sortDedup (keys (blocks.getD []))) classes order blocks
+
 /-- decimal rendering of the counter -/
 def decimal (n : Nat) : Str := (Nat.repr n).toList
 
